@@ -813,6 +813,10 @@ func (dru *dirRepoUpload) Close() error {
 func (dru *dirRepoUpload) closeFile() (bool, error) {
 	dru.mu.Lock()
 	defer dru.mu.Unlock()
+	if dru.fh == nil {
+		// the session expired or was evicted while the request that completes it was under way
+		return false, fmt.Errorf("upload session %s ended%.0w", dru.sessionID, types.ErrNotFound)
+	}
 	err := dru.fh.Close()
 	// a request that still writes to this session (a second connection of the client) finds the writer closed
 	dru.w = nil
